@@ -299,6 +299,40 @@ fn body(ctx: &mut Ctx) {
                     });
                     expect_nat(ctx, "BigUint a*=u32", &args, r, &want);
                 }
+                // signed scalars on BigInt: i32 / i64 / isize, both signs of both operands
+                {
+                    let bp = BigInt::from(us[i].clone());
+                    for (sb, x) in [(false, bp.clone()), (true, -bp.clone())] {
+                        for ts in [s as i128, -(s as i128)] {
+                            if let Ok(t64) = i64::try_from(ts) {
+                                let want = Int::new(sb, an.clone()).mul(&Int::from_i128(ts));
+                                let args = || vec![format!("x={}{}", if sb { "-" } else { "" }, an.to_hex()), format!("s={}", ts)];
+                                let r = call(ctx, || &x * t64);
+                                expect_int(ctx, "BigInt &x*i64", &args, r, &want);
+                                let r = call(ctx, || t64 * x.clone());
+                                expect_int(ctx, "BigInt i64*x", &args, r, &want);
+                                let r = call(ctx, || {
+                                    let mut y = x.clone();
+                                    y *= t64;
+                                    y
+                                });
+                                expect_int(ctx, "BigInt x*=i64", &args, r, &want);
+                                let r = call(ctx, || &x * (t64 as isize));
+                                expect_int(ctx, "BigInt &x*isize", &args, r, &want);
+                                if let Ok(t32) = i32::try_from(ts) {
+                                    let r = call(ctx, || &x * t32);
+                                    expect_int(ctx, "BigInt &x*i32", &args, r, &want);
+                                    let r = call(ctx, || {
+                                        let mut y = x.clone();
+                                        y *= t32;
+                                        y
+                                    });
+                                    expect_int(ctx, "BigInt x*=i32", &args, r, &want);
+                                }
+                            }
+                        }
+                    }
+                }
                 for hi in [1u64, alpha::H, alpha::M] {
                     let t = ((hi as u128) << 64) | s as u128;
                     let want = an.mul(&Nat::from_u128(t));
